@@ -80,7 +80,7 @@ let keys_of_wire (wire : z list) : z list list =
   go wire [] 100000
 
 let long_tok (t : string list) : bool =
-  List.exists (fun tok -> try ignore (Str.search_forward (Str.regexp "[=:]h[0-9]+:[0-9]+") tok 0); true with Not_found -> false) t
+  List.exists (fun tok -> not (String.length tok > 5 && String.sub tok 0 5 = "wire=") && try ignore (Str.search_forward (Str.regexp "[=:]h[0-9]+:[0-9]+") tok 0); true with Not_found -> false) t
 
 let run (cases : case list) =
   List.iteri (fun ci c ->
@@ -90,7 +90,7 @@ let run (cases : case list) =
     let all_wire = List.concat (List.map (fun (_, impl) ->
         let w = kv_def (split_ws impl) "wire" "-" in
         if String.length w > 0 && w.[0] = 'h' then [] else zlist_of_hex w) c.steps) in
-    let has_long_wire = List.exists (fun (_, impl) -> let w = kv_def (split_ws impl) "wire" "-" in String.length w > 0 && w.[0] = 'h') c.steps in
+    let has_long_wire = false in
     let st = ref (ws_init max (keys_of_wire all_wire)) in
     let agree = ref (not !oracle_only && not has_long_wire) in
     let os = ref (sess_init max) in
@@ -108,7 +108,7 @@ let run (cases : case list) =
         let wire = List.filteri (fun j _ -> j >= before_wire) s'.w_tr.tr_wire in
         let ev_s = String.concat " " (List.map fmt_ev evs) in
         let line = Printf.sprintf "%s%sstate=%s pend=%d wire=%s" ev_s (if ev_s = "" then "" else " ")
-            (string_of_z s'.w_state) (List.length s'.w_pending) (bytes_repr wire) in
+            (string_of_z s'.w_state) (List.length s'.w_pending) (hex_of_zlist wire) in
         visit (s'.w_state, s'.w_pending, s'.w_codec.c_src.t_read, s'.w_codec.c_src.t_pend, s'.w_rpend)
           (s'.w_pending <> [] || s'.w_rpend <> None || int_of_z s'.w_state <> 1);
         if line <> impl then begin report_mismatch ci i op line impl; agree := false end
